@@ -424,6 +424,12 @@ func (a *Act) checkPost(r retInfo) {
 		}
 		return
 	}
+	if g.eng.probes {
+		// before the postconditions are assumed (each one is, after it has been an obligation, for the ones after it): a
+		// refuted probe then means that the path itself is contradictory - which discharges the postconditions at this
+		// return - and not that a failed postcondition made it so
+		g.oblige("PROBE", fmt.Sprintf("return-reachable:%s", a.srcDetail(r.instr)), r.reach, "false", a.pos(r.instr.Pos()), "must-fail reachability probe at return").probe = true
+	}
 	for _, u := range a.ct.Uses {
 		if usesResult(u) {
 			a.applyLemmaR(u, r.st, nil, r.reach, r.vals)
@@ -449,9 +455,6 @@ func (a *Act) checkPost(r retInfo) {
 		}
 	}
 	a.checkRefines(r)
-	if g.eng.probes {
-		g.oblige("PROBE", fmt.Sprintf("return-reachable:%s", a.srcDetail(r.instr)), r.reach, "false", a.pos(r.instr.Pos()), "must-fail reachability probe at return").probe = true
-	}
 }
 
 // checkRefines: a method whose receiver type implements an interface for whose method of the same name a contract is
